@@ -28,6 +28,9 @@
 #include "login.h"
 
 #include "snoopy.h"
+#ifdef SNOOPY_CONF_THREAD_SAFETY_ENABLED
+#include "tsrm.h"
+#endif
 
 #include <stdio.h>
 #include <stdlib.h>
@@ -63,6 +66,7 @@ int snoopy_datasource_login (char * const resultBuf, size_t resultBufSize, __att
     int          loginSizeMaxWithNull    = SNOOPY_DATASOURCE_LOGIN_loginSizeMaxWithNull;
     char         login[SNOOPY_DATASOURCE_LOGIN_loginSizeMaxWithNull];
     const char * loginptr = NULL;
+    int          getloginRetVal;
 
     /*
      * Retrive the user login trying in order:
@@ -74,7 +78,14 @@ int snoopy_datasource_login (char * const resultBuf, size_t resultBufSize, __att
      * Defaults        env_reset
      * Defaults        env_keep="LOGNAME"
     */
-    if (0 != getlogin_r(login, loginSizeMaxWithNull)) {
+#ifdef SNOOPY_CONF_THREAD_SAFETY_ENABLED
+    snoopy_tsrm_forkUnsafeLibcCall_enter();
+#endif
+    getloginRetVal = getlogin_r(login, loginSizeMaxWithNull);
+#ifdef SNOOPY_CONF_THREAD_SAFETY_ENABLED
+    snoopy_tsrm_forkUnsafeLibcCall_leave();
+#endif
+    if (0 != getloginRetVal) {
         loginptr = getenv("SUDO_USER");
         if (!loginptr) {
             loginptr = getenv("LOGNAME");
